@@ -613,7 +613,7 @@ def main(tier='quick', seed=0, repo=None):
                     strat.extend(rng.sample(lst, min(2, len(lst))))
                 rng.shuffle(strat)
                 # families made of inputs that are sensitive to process configuration / first-use order go in whole
-                whole = [op for f in ('dialect_diff', 'reserved_words', 'raw_queries') for op in c['families'].get(f, [])]
+                whole = [op for f in ('dialect_diff', 'reserved_words', 'raw_queries', 'plural_slots') for op in c['families'].get(f, [])]
                 pick, seen_k = [], set()
                 for op in whole + errs[:s3_slice // 2] + strat[:s3_slice // 2] + rest:
                     k = O.op_key(op)
